@@ -142,10 +142,10 @@ func c20(w *core.World, r *core.Report) {
 	r.Extra["boundary_scope_functions"] = len(scope)
 
 	r.Rule("OPTIONAL-MSG", 5, "K1: a field selected directly on the result of a protobuf getter of a client/device-controlled message (x.GetA().B) needs a dominating nil test of that getter expression, or — for oneof getters of TypedValue — the enclosing 'case *TypedValue_XVal' of the same value (the wrapper is then non-nil by protobuf decoding). K1p: a possibly-absent sub-message (getter result, not nil-tested) must not be passed to a repository function that selects a field of that parameter without a nil test.")
-	r.Rule("CHECKED-ASSERT", 3, "K3: a single-result type assertion on an 'any' value (JSON-decoded data) in the boundary scope must be inside the matching case of a type switch / after a successful comma-ok assertion of the same value to the same type.")
-	r.Rule("NILABLE-RESULT", 2, "K4: the result of etree FindElement / SelectElement / Root (nil when nothing matches) is used as a receiver only after a nil test.")
+	r.Rule("CHECKED-ASSERT", 0, "K3: a single-result type assertion on an 'any' value (JSON-decoded data) in the boundary scope must be inside the matching case of a type switch / after a successful comma-ok assertion of the same value to the same type.")
+	r.Rule("NILABLE-RESULT", 0, "K4: the result of etree FindElement / SelectElement / Root (nil when nothing matches) is used as a receiver only after a nil test.")
 	r.Rule("ERR-BRANCH-USE", 10, "K6 (contradiction rule): on the err != nil outcome of 'v, err := f()' the co-result v is not dereferenced or used as a method receiver (by convention it is nil there).")
-	r.Rule("SPLIT-INDEX", 2, "K2: a constant index >= 1 into the result of strings.Split / SplitN / Fields (input-shaped text) is dominated by a test of len() of that result.")
+	r.Rule("SPLIT-INDEX", 0, "K2: a constant index >= 1 into the result of strings.Split / SplitN / Fields (input-shaped text) is dominated by a test of len() of that result.")
 
 	r.Rule("TYPED-NIL", 1, "K7: in the boundary scope a function with an interface result does not return a possibly nil POINTER converted to that interface (nil constant of pointer type, or the result of a repository function that has a 'return nil') unless a nil test of the pointer dominates the conversion: the caller's 'x == nil' is false for a typed nil and the next method call dereferences nil.")
 	r.Rule("EXPAND-PROGRESS", 1, "K8: the self-recursion of Converter.ConvertNotificationTypedValues on the result of ExpandUpdate makes progress: in ExpandUpdate no store that puts the input update into a result slice is dominated by the JSON decode of the container branch (a JSON blob on a container is replaced by its expansion, never handed back).")
